@@ -4,8 +4,10 @@
 package extract
 
 //@ func Attestation
+//@   modifies *
 //@   assigns nothing
 //@   ensures err == nil ==> result != nil
 
 //@ func Endorsement
+//@   modifies *
 //@   assigns nothing
